@@ -55,10 +55,11 @@ Record xstate := mkX {
   blocked : option nat;       (* connection whose loop is inside the blocking handler *)
   auto : bool;                (* real transports: dead connections are noticed before the next operation *)
   npeers : nat;
-  hreent : bool }.             (* error handler 0 is re-entrant: it calls Send(lost peer) on its own router *)
+  hreent : bool;
+  hbuf : bool }.              (* TCP: the kernel takes the write of a re-entrant handler's Send to the dead connection *)             (* error handler 0 is re-entrant: it calls Send(lost peer) on its own router *)
 
 Definition with_st (x : xstate) (s : state) : xstate :=
-  mkX s (held x) (armed x) (blocked x) (auto x) (npeers x) (hreent x).
+  mkX s (held x) (armed x) (blocked x) (auto x) (npeers x) (hreent x) (hbuf x).
 
 Definition loop_of (s : state) (c : nat) : option lstate :=
   match conns s c with Some x => Some (loop x) | None => None end.
@@ -76,12 +77,12 @@ Fixpoint drive (fuel : nat) (x : xstate) (c : nat) : xstate :=
                 (* a re-entrant handler 0 sends one message to the peer it was told, from inside the call *)
                 let s' := if hreent x && (k =? 0) then
                             match conns s0 c with
-                            | Some y => fst (send_call s0 (cpeer y) [length (calls s0)] false)
+                            | Some y => fst (send_call s0 (cpeer y) [4000 + length (calls s0)] (hbuf x))
                             | None => s0
                             end
                           else s0 in
                 if match armed x with Some h => h =? k | None => false end
-                then mkX s' (held x) None (Some c) (auto x) (npeers x) (hreent x)
+                then mkX s' (held x) None (Some c) (auto x) (npeers x) (hreent x) (hbuf x)
                 else drive f (with_st x s') c
             | None => x
             end
@@ -178,7 +179,10 @@ Definition live_conn (s : state) (p : nat) : option nat :=
                  end) (table s p).
 
 (* result of one operation: new state, result of a send that returned, skipped? *)
-Definition exec_o (ov : option (list bool)) (x : xstate) (o : op) : xstate * option bool * bool :=
+Definition exec_o (ov : option (list bool)) (x0 : xstate) (o : op) : xstate * option bool * bool :=
+  (* the last bit of a given oracle list is the one of the handlers' own Sends during this operation *)
+  let x := mkX (st x0) (held x0) (armed x0) (blocked x0) (auto x0) (npeers x0) (hreent x0)
+               (match ov with Some l => hreent x0 && last l false | None => false end) in
   let s := st x in
   let orc buf n := match ov with Some l => l | None => repeat buf n end in
   match o with
@@ -199,7 +203,7 @@ Definition exec_o (ov : option (list bool)) (x : xstate) (o : op) : xstate * opt
               let s2 := run_until_reg_o (send_fuel msgs) s1 t (length msgs) (orc buf (length msgs)) in
               match result s2 t with
               | Some r => (settle (with_st x s2), res_bool (Some r), false)
-              | None => (mkX s2 (Some t) (armed x) (blocked x) (auto x) (npeers x) (hreent x), None, false)
+              | None => (mkX s2 (Some t) (armed x) (blocked x) (auto x) (npeers x) (hreent x) (hbuf x), None, false)
               end
           | None => (x, None, true)
           end
@@ -209,7 +213,7 @@ Definition exec_o (ov : option (list bool)) (x : xstate) (o : op) : xstate * opt
       | Some t =>
           let msgs := match threads s t with Some th => tmsgs th | None => [] end in
           let s2 := run_thread_o (send_fuel msgs) s t (length msgs) (orc buf (length msgs)) in
-          (settle (mkX s2 None (armed x) (blocked x) (auto x) (npeers x) (hreent x)), res_bool (result s2 t), false)
+          (settle (mkX s2 None (armed x) (blocked x) (auto x) (npeers x) (hreent x) (hbuf x)), res_bool (result s2 t), false)
       | None => (x, None, true)
       end
   | OPeerSend p m =>
@@ -295,13 +299,13 @@ Definition exec_o (ov : option (list bool)) (x : xstate) (o : op) : xstate * opt
       end
   | OHold h =>
       match armed x, blocked x with
-      | None, None => (mkX s (held x) (Some h) None (auto x) (npeers x) (hreent x), None, false)
+      | None, None => (mkX s (held x) (Some h) None (auto x) (npeers x) (hreent x) (hbuf x), None, false)
       | _, _ => (x, None, true)
       end
   | ORelease =>
       match blocked x with
-      | Some c => (settle (drive (nh s + 2) (mkX s (held x) (armed x) None (auto x) (npeers x) (hreent x)) c), None, false)
-      | None => (mkX s (held x) None None (auto x) (npeers x) (hreent x), None, false)
+      | Some c => (settle (drive (nh s + 2) (mkX s (held x) (armed x) None (auto x) (npeers x) (hreent x) (hbuf x)) c), None, false)
+      | None => (mkX s (held x) None None (auto x) (npeers x) (hreent x) (hbuf x), None, false)
       end
   | OCloseRouter =>
       match step s AClose with
@@ -339,7 +343,7 @@ Fixpoint model_run (x : xstate) (ops : list op) : list snap :=
   end.
 
 Definition x0 (is_tcp is_auto : bool) (np nhand : nat) (hs : bool) : xstate :=
-  mkX (init code_fixed_F11 is_tcp nhand) None None None is_auto np hs.
+  mkX (init code_fixed_F11 is_tcp nhand) None None None is_auto np hs false.
 
 (* coarse projection for the real transports *)
 Record csnap := mkCSnap {
@@ -356,7 +360,10 @@ Definition count_calls (h p : nat) (l : list (nat * nat * nat)) : nat :=
   length (filter (fun x => (fst (fst x) =? h) && (snd (fst x) =? p)) l).
 
 Definition count_deliv (s : state) (p i : nat) : nat :=
-  length (filter (fun mc => match conns s (snd mc) with
+  (* messages sent by a re-entrant handler (identifiers from 4000) are not counted: when they arrive is
+     not synchronised with the operations *)
+  length (filter (fun mc => (fst mc <? 4000) &&
+                            match conns s (snd mc) with
                             | Some y => (cpeer y =? p) && (cinc y =? i)
                             | None => false
                             end) (delivered s)).
@@ -445,7 +452,7 @@ Fixpoint cmodel_run (x : xstate) (ops : list op) (obs : list csnap) : list csnap
   match ops with
   | [] => []
   | o :: r =>
-      let n := op_msgs x o in
+      let n := op_msgs x o + (if hreent x then 1 else 0) in
       let cands := if tcp (st x) then all_bools n else [repeat false n] in
       let (x', sn) := pick_oracle x o (hd_error obs) cands in
       sn :: cmodel_run x' r (tl obs)
